@@ -7,6 +7,7 @@ package main
 import (
 	"bytes"
 	"fmt"
+	"os"
 	"sort"
 	"strings"
 	"time"
@@ -22,6 +23,13 @@ import (
 )
 
 func init() {
+	// Memoize draws its cache key from a process-wide counter that only grows: half of the driver processes
+	// start with the counter beyond 16 bits (a long-running program that built many grammars)
+	if os.Getenv("VERIF_MEMO_BURN") != "" {
+		for i := 0; i < 70000; i++ {
+			combinator.Memoize(parser.Empty())
+		}
+	}
 	subcommands["eng"] = engCmd
 	subcommands["c12"] = c12Cmd
 	subcommands["c17"] = c17Cmd
@@ -456,6 +464,10 @@ func newEngEnv(t *Term) *engEnv {
 			filler[i] = 'a'
 		}
 		fs = parsley.NewFileSet(text.NewFile("x", filler), f)
+	}
+	if offset > 1 {
+		// a look-up in the preceding file first: translation must not depend on the history of look-ups
+		_ = fs.Position(parsley.Pos(1)).String()
 	}
 	engData = bytes.Replace(raw, []byte("\r\n"), []byte("\n"), -1) // what NewFile keeps
 	engOffset = int(f.Pos(0))
